@@ -1,5 +1,5 @@
 (* Model of the HTTP/1 response encoder, reduced to what decides framing, and byte-exact for the
-   body transfer encodings.  Transcribed from (the repaired tree: fixes F1, F2, F18, F23)
+   body transfer encodings.  Transcribed from (the repaired tree: fixes F1, F2, F12, F18, F23)
      actix-http/src/h1/codec.rs     Codec::{new, decode (context part), encode}
      actix-http/src/h1/encoder.rs   MessageType::encode_headers, MessageEncoder::encode,
                                     TransferEncoding::{encode, encode_eof}
@@ -202,6 +202,16 @@ Definition codec_decode (c : codec) (r : reqctx) : codec :=
   let ct := req_conn_type r in
   let ct := if conn_eqb ct CKeepAlive && negb (c_ka_enabled c) then CClose else ct in
   mkCodec (c_ka_enabled c) (rq_head r) (c_stream c || rq_stream r) (rq_ver r) ct (c_te c).
+
+(* Codec::{request_context, current_context, set_request_context} (F12 repair: the dispatcher
+   saves / restores / re-derives the per-request context around queued requests) *)
+Definition reqcontext : Type := bool * version * conn_t.
+Definition request_context (c : codec) (r : reqctx) : reqcontext :=
+  let ct := req_conn_type r in
+  (rq_head r, rq_ver r, if conn_eqb ct CKeepAlive && negb (c_ka_enabled c) then CClose else ct).
+Definition current_context (c : codec) : reqcontext := (c_head c, c_ver c, c_conn c).
+Definition set_request_context (c : codec) (x : reqcontext) : codec :=
+  mkCodec (c_ka_enabled c) (fst (fst x)) (c_stream c) (snd (fst x)) (snd x) (c_te c).
 
 (* Codec::encode(Message::Item((res, length))) *)
 Definition codec_encode_item (c : codec) (r : resp) (length : bsize) : codec * head :=
